@@ -496,6 +496,7 @@ where
         if name.as_ref() != state.1.as_ref() {
             <Self as IntoStyle>::reset(state);
             state.2 = value.build(&state.0, name.as_ref());
+            state.1 = name;
         } else {
             value.rebuild(&state.0, name.as_ref(), &mut state.2);
         }
